@@ -6,6 +6,7 @@ import (
 	"unicode/utf8"
 
 	"github.com/dcaiafa/lox/verif/internal/ctypes"
+	"github.com/dcaiafa/lox/verif/internal/lexref"
 	"github.com/dcaiafa/loxlex/simplelexer"
 )
 
@@ -109,8 +110,15 @@ func ImplTokensGuard(car *ctypes.Carrier, b *Built, input []byte, stopAtError bo
 // up to and including the first error. Discards are not part of the observable
 // stream and are omitted.
 func RefTokens(b *Built, input []byte, ng func(m *RefM) bool) []Tok {
+	return RefTokensNG(b, input, ng, nil)
+}
+
+// RefTokensNG is RefTokens with the C08 ambiguity rule: it returns nil when an
+// ambiguous situation is met (the statement defines no stream then).
+func RefTokensNG(b *Built, input []byte, ng func(m *RefM) bool, isNG func(r *lexref.Rule) bool) []Tok {
 	m := NewRefM(b.C)
 	m.NGStop = ng
+	m.IsNG = isNG
 	var toks []Tok
 	pos, start := 0, -1
 	for steps := 0; steps < 100*len(input)+1000; steps++ {
@@ -125,6 +133,9 @@ func RefTokens(b *Built, input []byte, ng func(m *RefM) bool) []Tok {
 		atom := -1
 		if r >= 0 {
 			atom = b.C.AtomOf(r)
+		}
+		if m.Ambiguous(atom) {
+			return nil
 		}
 		ev := m.Push(atom)
 		switch ev.K {
